@@ -208,6 +208,36 @@ def build() -> Check:
         calls_ = unescaped_regex_calls(m_.tree)
         ck.ob("R4.string-filters-match-literally", f"{modname}.py", not calls_,
               "; ".join(f"line {c.lineno}: `{ast.unparse(c)[:70]}` feeds a non-literal to the regex engine without re.escape" for c in calls_) or "no regex built from configuration strings")
+    # R4 the backoff is a power of the configured rate with an exponent that grows with the attempt number: for a float rate (the dataclass default is 2.0)
+    # it raises OverflowError long before the max-delay cap is applied (2.0 ** 1024). The power must be guarded (try / bounded exponent) or capped in the
+    # exponent - otherwise a strategy with many attempts fails the step with an unrecorded OverflowError.
+    def unguarded_powers(fn_node):
+        out = []
+        parents_ = {}
+        for n_ in ast.walk(fn_node):
+            for c_ in ast.iter_child_nodes(n_):
+                parents_[id(c_)] = n_
+        for n_ in ast.walk(fn_node):
+            if isinstance(n_, ast.BinOp) and isinstance(n_.op, ast.Pow) and not isinstance(n_.right, ast.Constant):
+                bounded = any(isinstance(c_, ast.Call) and isinstance(c_.func, ast.Name) and c_.func.id == "min" for c_ in ast.walk(n_.right))
+                cur, guarded = parents_.get(id(n_)), False
+                while cur is not None:
+                    if isinstance(cur, ast.Try) and any(h.type is None or any(nm in ast.unparse(h.type) for nm in ("OverflowError", "ArithmeticError", "Exception")) for h in cur.handlers):
+                        guarded = True
+                    cur = parents_.get(id(cur))
+                if not (bounded or guarded):
+                    out.append(n_)
+        return out
+
+    if not unguarded_powers(ast.parse("def f(c, n):\n    return min(c.d * c.rate ** (n - 1), c.m)\n")):
+        raise AnalysisError("overflow rule does not fire on its positive example")
+    for modname, fname in (("retries", "create_retry_strategy"), ("waits", "create_wait_strategy")):
+        f_ = prog.module(modname).functions.get(fname)
+        if f_ is None:
+            raise AnalysisError(f"{modname}.{fname} not found")
+        pw = unguarded_powers(f_.node)
+        ck.ob("R4.backoff-power-cannot-overflow", fn_construct(f_), not pw,
+              "; ".join(f"line {n_.lineno}: `{ast.unparse(n_)[:70]}` overflows for a float rate once the attempt number is large (2.0 ** 1024) - before the cap is applied" for n_ in pw))
     return ck
 
 
